@@ -32,6 +32,9 @@ CLAIMED = {
  "C05": dict(cat="fault_enumeration", ref="DESIGN.md §3.5", tech="deterministic simulation with storage-fault enumeration in isolated workers: truncations and planted boundary words on valid files of every archive family, allocator seam, abort/hang attribution through a write-ahead journal",
    text="Valid files of every archive family are hit by every truncation point and by boundary values planted in every 32-bit word (both byte orders), plus sampled flips, sector faults, splices and multi-fault combinations, and fed to every parser of the family (and through the filesystem's typed readers) inside isolated single-threaded workers. The outcome of each call must be Ok or Err: panics are caught with their location, aborts and hangs are observed by the supervisor and attributed to the exact operation through a shared-memory journal, and an allocator seam bounds the largest single request by 64 x input + 1 MiB. Both arithmetic profiles.",
    note="Trusted: the allocator seam and process supervision; the bound's constant (64x + 1 MiB) is the harness's reading of 'small constant multiple'. The space of byte strings is sampled structure-aware; enumeration is complete only per file for truncations and (up to 640 bytes) word plants."),
+ "C20": dict(cat="fault_enumeration", ref="DESIGN.md §3.7", tech="deterministic simulation with crash-point enumeration: peer-packed texture containers with seeded placement, every strict prefix (torn write) read back, zero-fault configuration compared metamorphically",
+   text="Texture lists are packed into CTPK/BCH/CGFX/TPL by independent packers with seeded free placement; the complete file must return the packed textures (count, order, names, dimensions, pixel data equal to the same payload read from a canonical single-texture container), a corrupted magic must be rejected, and every strict prefix - the torn-write / crash-point enumeration - must be read without panicking and must fail whenever the cut removes part of a payload. Fault enumeration is the right level: the truncation clause ranges over a finite set of cut points per file, covered completely for files up to 8 KiB.",
+   note="Trusted: the packers (definition of 'conforming'), harness oracles. Files are sampled; prefixes are exhaustive per file up to 8 KiB."),
 }
 NA = {
  "C01": "pure function: parse(serialize(a)) of one in-memory value and parsing of re-arranged images; no schedule, clock, fault or shared state in the quantifier (inputs x configurations only) - input generation alone would decide it, which is not simulation",
